@@ -7,10 +7,10 @@ set -u
 ID="$1"; SEED="${2:-0}"
 case "$ID" in
   C01) T=c01_registry; RUNS=150000; MAXLEN=300;;
-  C02) T=c02_borrows;  RUNS=150000; MAXLEN=240;;
-  C03) T=c03_config;   RUNS=100000; MAXLEN=160;;
+  C02) T=c02_borrows;  RUNS=250000; MAXLEN=240;;
+  C03) T=c03_config;   RUNS=400000; MAXLEN=160;;
   C04) T=c04_stack;    RUNS=60000;  MAXLEN=256;;
-  C13) T=c13_helpers;  RUNS=600000; MAXLEN=80;;
+  C13) T=c13_helpers;  RUNS=5000000; MAXLEN=80;;
   *) exit 0;;
 esac
 [ "$SEED" = "0" ] && LSEED=1 || LSEED="$SEED"     # libFuzzer: 0 means random
@@ -27,8 +27,8 @@ fi
 BIN=/verif/target/x86_64-unknown-linux-gnu/release/$T
 timeout 2400 "$BIN" "$WORK/corpus" -artifact_prefix="$WORK/artifacts/" -runs=$RUNS -seed=$LSEED -len_control=0 -max_len=$MAXLEN -rss_limit_mb=4096 -print_final_stats=1 >"$WORK/run.log" 2>&1
 RC=$?
-EXECS=$(grep -o 'stat::number_of_executed_units: [0-9]*' "$WORK/run.log" | grep -o '[0-9]*$' | tail -1)
-NEW=$(grep -o 'stat::new_units_added: [0-9]*' "$WORK/run.log" | grep -o '[0-9]*$' | tail -1)
+EXECS=$(grep -o 'stat::number_of_executed_units: *[0-9]*' "$WORK/run.log" | grep -o '[0-9]*$' | tail -1)
+NEW=$(grep -o 'stat::new_units_added: *[0-9]*' "$WORK/run.log" | grep -o '[0-9]*$' | tail -1)
 COV=$(grep -o 'cov: [0-9]*' "$WORK/run.log" | tail -1 | grep -o '[0-9]*')
 END=$(date +%s)
 VIOL=0; ARTS=()
